@@ -22,15 +22,18 @@ def dump (st : St) : String :=
   let f := fun (g : String → Int) => ",".intercalate (users.map (fun u => s!"{u}={g u}"))
   let fr := st.ids.filterMap (fun id => (st.s.fromRec id).map (fun r => s!"{id}:{if r.committed then "c" else "o"}"))
   let to := st.ids.filter (fun id => (st.s.toRec id).isSome)
-  s!"A:{f st.s.srcA};B:{f st.s.dstB};gA={st.s.givenA};gB={st.s.givenB};from={joinOr "," fr};to={joinOr "," to}"
+  s!"A:{f st.s.srcA};B:{f st.s.dstB};gA={st.s.givenA};gB={st.s.givenB};from={joinOr "," fr};to={joinOr "," to};x=0"
 
 def step' (st : St) : List String → St × String
-  | ["reset", d] => (init (d = "f"), "ok")
+  | ["reset", d] => (init (d = "f" ∨ d = "g"), "ok")
   | ["fund", u, n] => match n.toInt? with
     | some n => ({ st with s := { st.s with srcA := upd st.s.srcA u (st.s.srcA u + n) },
                            funded := (u, n) :: st.funded }, "ok")
     | none => (st, "bad-op")
   | ["from", id, u, n] => match n.toInt? with
+    | some n => doStep st (.createFrom (dec id) u n) id
+    | none => (st, "bad-op")
+  | ["fromadm", id, u, n] => match n.toInt? with
     | some n => doStep st (.createFrom (dec id) u n) id
     | none => (st, "bad-op")
   | ["to", id, u, n] => match n.toInt? with
@@ -48,6 +51,7 @@ def machine : Machine := ⟨St, init true, step'⟩
 def clause : List String → String
   | "dump" :: _ => "balances_and_records"
   | "from" :: _ => "debit_once"
+  | "fromadm" :: _ => "debit_once"
   | "to" :: _ => "credit_at_most_once"
   | "cancel" :: _ => "refund_exact"
   | _ => "record_lifecycle"
